@@ -213,7 +213,7 @@ def run_property(plan: Plan, tier: str, seed: int, contracts_mod_names, replay=N
     pid = plan.pid
     known = load_known()
     rng = random.Random(seed)
-    timeout = 10 if tier == "quick" else 60
+    timeout = 20 if tier == "quick" else 60     # per solver call; an unknown is retried by cvc5 and under two more seeds
     out_lines = []
     engines = {}
     all_obls = []
